@@ -35,7 +35,7 @@ PROPS = {
     "C07": dict(fams=[("print", 1500, "fast"), ("sink", 3000, "fast"), ("printall", 1, "fast"), ("serde", 200, "fast")], mult=10),
     "C08": dict(fams=[("tok", 1, "fast"), ("numshort", 1, "fast"), ("opts", 1, "fast"), ("sens", 1500, "fast")], mult=2),
     "C09": dict(fams=[], mult=10, special="macro"),
-    "C10": dict(fams=[("text", 1500, "fast"), ("malformed", 1500, "fast"), ("deep", 1, "fast"), ("tok", 1, "fast")], mult=10),
+    "C10": dict(fams=[("text", 1500, "fast"), ("malformed", 1500, "fast"), ("deep", 1, "fast"), ("tok", 1, "fast"), ("consops", 600, "fast")], mult=10),
     "C11": dict(fams=[("text", 2000, "fast"), ("malformed", 500, "fast"), ("faults", 100, "fast")], mult=10),
     "C12": dict(fams=[("trivia", 2000, "fast"), ("text", 1500, "fast"), ("malformed", 2000, "fast"), ("deep", 1, "fast")], mult=10),
     "C13": dict(fams=[("pp", 4000, "fast"), ("ppfix", 1, "fast"), ("pp", 1000, "nofast")], mult=10),
@@ -50,7 +50,7 @@ PROPS = {
 
 EXTRA_MODULES = {
     "C15": ["LexprModel.Proofs.ConsOpsAll"],
-    "C16": ["LexprModel.Proofs.ConsOpsAll"],
+    "C16": ["LexprModel.Proofs.ConsOpsAll", "LexprModel.Proofs.DatumDepth"],
 }
 
 def log(msg):
